@@ -95,6 +95,7 @@ class C05(Prop):
         out = []
         if case.get("pre"):
             helper_prelude(case["h1"] + case["h2"] + case["perm"], case["pre"])
+            malformed_prelude([self.f], [case["h1"], case["h2"], case["perm"]], case["pre"])
         for h in (case["h1"], case["h2"], case["perm"]):
             try:
                 out.append(list(self.f(list(h))))
@@ -126,6 +127,28 @@ class C05(Prop):
         key = "".join(sorted(case["h1"])) if s1[0] != 0 else None
         tags = [f"cat={s1[0]}", "tie" if s1 == s2 and sorted(case["h1"]) != sorted(case["h2"]) else "cmp"]
         return Verdict(agree, holds, " ;; ".join(why[:4]), key, tags)
+
+
+def malformed_prelude(fns, groups, code):
+    """Calls the evaluators under test with hands in which one card is malformed ('10h', '', 'Zz', 'A', a number): each such
+    call must be refused (whatever the exception), and -- this is the point -- must leave nothing behind that changes the
+    answer to the next, valid, call."""
+    junk = ["10h", "", "Zz", "A", "h", 7, None, "AhKh"]
+    k = 0
+    for f in fns:
+        for g in groups:
+            g = list(g)
+            if not g:
+                continue
+            k += 1
+            if not (code >> (k % 16)) & 1:
+                continue
+            j = (code + k) % len(g)
+            bad = g[:j] + [junk[(code + 3 * k) % len(junk)]] + g[j + 1:]
+            try:
+                f(bad)
+            except Exception:
+                pass
 
 
 def helper_prelude(cards, code):
@@ -222,6 +245,11 @@ class C06(Prop):
             c = {"board": b, "h4": h4, "h2": h2}
             if rng.random() < 0.25:
                 c["pre"] = rng.randrange(1, 1 << 16)
+            r = rng.random()
+            if r < 0.3:
+                c["ckind"] = rng.choice([1, 2, 2, 3])
+            elif r < 0.55:
+                c["reuse"] = True
             yield c
 
     def exhaustive(self, tier, shard, nshards):
@@ -271,9 +299,27 @@ class C06(Prop):
             except Exception as e:
                 return "!" + type(e).__name__
         b, h4, h2 = list(case["board"]), list(case["h4"]), list(case["h2"])
+        kind = case.get("ckind", 0)
+        if kind:
+            # hands as the documented `set` (or a tuple / frozenset); the board as a tuple for kind 1
+            mk = [list, tuple, set, frozenset][kind]
+            h4, h2 = mk(h4), mk(h2)
+            if kind == 1:
+                b = tuple(b)
+        elif case.get("reuse"):
+            # a caller that keeps one board list and one hand list and overwrites them in place between evaluations
+            objs = self.__dict__.setdefault("_objs", {"b": [], "h4": [], "h2": []})
+            objs["b"][:] = b; objs["h4"][:] = h4; objs["h2"][:] = h2
+            b, h4, h2 = objs["b"], objs["h4"], objs["h2"]
         if case.get("pre"):
-            helper_prelude([b, h4, h2, b + h4, b + h2] + [[c for c in b if c[1] == s] for s in "cdhs"]
-                           + [[c for c in b + h4 if c[1] == s] for s in "cdhs"], case["pre"])
+            malformed_prelude([lambda x: self.ou.get_hand_strength_fast(list(case["board"]), x),
+                               lambda x: self.ou.get_hand_strength_fast(x, list(case["h4"])),
+                               lambda x: self.hu.get_hand_strength_fast(list(case["board"]), x),
+                               lambda x: self.ob.brute_force_omaha_hi_rank(list(case["board"]), x)],
+                              [case["h4"], case["board"], case["h2"], case["h4"]], case["pre"])
+            lb, l4, l2 = list(case["board"]), list(case["h4"]), list(case["h2"])
+            helper_prelude([lb, l4, l2, lb + l4, lb + l2] + [[c for c in lb if c[1] == s] for s in "cdhs"]
+                           + [[c for c in lb + l4 if c[1] == s] for s in "cdhs"], case["pre"])
         if case.get("_nobrute"):   # exhaustive scope: the optimised evaluator against model and spec only
             return {"fast": run(self.ou.get_hand_strength_fast, b, h4), "brute": None,
                     "holdem": run(self.hu.get_hand_strength_fast, b, h2), "hbrute": None}
